@@ -384,6 +384,10 @@ func wrappedBody(c *core.Ctx, entry, ins *ssa.Function) (*ssa.Function, *ssa.Cal
 		if an.Unwrap(rv) == ssa.Value(call) || blockLocal(rv) == ssa.Value(call) {
 			continue
 		}
+		// (the body may report more than the verdict — what it evicted, for a hook run outside the lock)
+		if ex, isEx := an.Unwrap(rv).(*ssa.Extract); isEx && ex.Index == 0 && ex.Tuple == ssa.Value(call) {
+			continue
+		}
 		if !isConstBool(rv, true) || subj == "" {
 			return nil, nil
 		}
@@ -508,7 +512,8 @@ func runKeyClass(c *core.Ctx) {
 		}
 		c.Check(!stored["Ephemeral"], []string{"C04"}, fname(c, a.entry), "class:Ephemeral/stored", P.Pos(a.insCall.Pos()),
 			"ephemeral events never reach the insertion", "ephemeral events reach the insertion helper and are retained and served (Add(kind 20001) then Find([{}]) returns it)")
-		checkKeyFunc(c, a.keyFn, 0, -1, props, stored, cls, classNames)
+		// (a method that only forwards to an injectable key function stands for its default)
+		checkKeyFunc(c, an.Follow(a.keyFn), 0, -1, props, stored, cls, classNames)
 		// … and by no other door: every exported method of the cache from which the insertion helper can be
 		// reached (a bulk variant, a restore path) keeps ephemeral events out on the way — by a test of its
 		// own, or because the test sits in what it shares with Add
@@ -707,7 +712,7 @@ func runNewestWins(c *core.Ctx) {
 			seenArgs[clip(arg, 160)] = true
 			// removed under the key it is stored under: the insertion key itself, or the
 			// key function applied to the retained version found under that key
-			if strings.Contains(arg, "EventKey="+keyPath) || (a.keyFn != nil && strings.Contains(arg, "EventKey=call:"+a.keyFn.String()+"(recv,"+oldPath+")")) {
+			if strings.Contains(arg, "EventKey="+keyPath) || (a.keyFn != nil && (strings.Contains(arg, "EventKey=call:"+a.keyFn.String()+"(recv,"+oldPath+")") || strings.Contains(arg, "EventKey=call:"+an.FuncFullName(an.Follow(a.keyFn))+"("+oldPath+")"))) {
 				found = true
 			}
 		}
